@@ -330,10 +330,12 @@ impl Session {
                 for _ in 0..max(0, spawn_num) {
                     self.spawn_peer_handler();
                 }
+
+                // Tracker job ends only after successful response
+                self.kill_tracker().await;
             }
             TrackerCmd::Fail(e) => self.log(format!("Tracker fail: {}", e)).await,
         }
-        self.kill_tracker().await;
     }
 
     async fn handle_extractor_cmd(&mut self, cmd: ExtractorCmd) {
